@@ -162,6 +162,8 @@ class Assign:
         val = arg_val(target, self.val, scope)
 
         op, arg, path = self.op, self.arg, self.path
+        # like the argument of every other step: a spec (T[T['k']]) is evaluated
+        arg = arg_val(target, arg, scope)
         if self.path.startswith(S):
             dest_target = scope[UP]
             dest_path = self.path.from_t()
@@ -180,6 +182,7 @@ class Assign:
             val = scope[glom](self.missing(), Assign(remaining_path, Val(val), missing=self.missing), scope)
 
             op, arg = self._orig_path.items()[pae.part_idx]
+            arg = arg_val(target, arg, scope)
             path = self._orig_path[:pae.part_idx]
             dest = scope[glom](dest_target, path, scope)
 
@@ -313,6 +316,8 @@ class Delete:
 
     def glomit(self, target, scope):
         op, arg, path = self.op, self.arg, self.path
+        # like the argument of every other step: a spec (T[T['k']]) is evaluated
+        arg = arg_val(target, arg, scope)
         if self.path.startswith(S):
             dest_target = scope[UP]
             dest_path = self.path.from_t()
